@@ -296,10 +296,10 @@ pub fn scenarios() -> Vec<Scn> {
   }));
   // feedback through the scheduler-based operators: the callback of the first item, running on
   // the operator's worker thread, emits into / completes the subject that feeds the operator
-  for op in ["observe_on", "debounce", "timeout", "sample"] {
+  for op in ["observe_on", "debounce", "timeout", "sample", "delay"] {
     for terminal in [false, true] {
       let name = format!("c07/Subject.{}: the callback of the first item calls {} on the subject, then unsubscribe", op, if terminal { "complete" } else { "next" });
-      v.push(conc_scn(&name, Some(1), Some(2), move |rec| {
+      let mut sc = conc_scn(&name, Some(1), Some(2), move |rec| {
         let sbj = subjects::Subject::<i64>::new();
         let o = match op {
           "observe_on" => sbj.observable().observe_on(nt()),
@@ -336,7 +336,12 @@ pub fn scenarios() -> Vec<Scn> {
           thread::sleep(ms(30));
           sub.unsubscribe();
         }) as Th]
-      }));
+      });
+      if op == "delay" {
+        // delay waits on the emitting thread: one thread, one schedule - the feedback nests
+        sc.min_conflicts = 0;
+      }
+      v.push(sc);
     }
   }
   v
